@@ -91,6 +91,10 @@ def make_form(rng, i):
         g.children = [Row("q", f"{rng.choice(['select_one', 'select_multiple'])} {ln}", f"tl{i}_{j}", {"label": f"t{j}"}) for j in range(rng.randint(1, 3))]
         if rng.random() < 0.3:
             g.children.insert(0, Row("q", "note", f"tl{i}_n", {"label": "before"}))
+        if rng.random() < 0.3 and len(g.children) >= 2:
+            # an ordinary group nested among the selects of the table-list section: it neither joins the table nor ends it for the selects after it
+            at_ = rng.randint(1, len(g.children) - 1)
+            g.children.insert(at_, Row("group", "begin group", f"tl{i}_in", {"label": "inner"}, [Row("q", "text", f"tl{i}_int", {"label": "t"}), Row("q", f"select_one {ln}", f"tl{i}_ins", {"label": "s"})]))
         place(g)
         # selects that FOLLOW the table-list section (same list and another one) keep their own appearance
         holder = next((x.children for x, _ in f.walk() if x.is_section() and g in x.children), f.survey)
